@@ -179,3 +179,16 @@ def cell_matrix(np, cells, shape):
         W[r, c] = v
         N[r, c] = n
     return W, N
+
+
+def degenerate(kind, case):
+    """True when the corpus leaves nothing to learn (outside every property's quantifier): no kept token besides the
+    mask, no surviving n-gram row, or a vocabulary the specification leaves ambiguous."""
+    e = expectation(kind, case)
+    if e.ambiguous:
+        return True
+    if not e.kept:
+        return True
+    if kind == "ngram" and e.n_rows == 0:
+        return True
+    return False
